@@ -123,6 +123,13 @@ func (i Info) AppendHash(dst []byte, h hash.Hash) []byte {
 	}
 
 	// Hash forms
+	// XEP-0115 §5.1 step 7: the forms are sorted by their FORM_TYPE (forms
+	// without one sort first, in their original order).
+	sort.SliceStable(i.Form, func(a, b int) bool {
+		typeA, _ := i.Form[a].GetString("FORM_TYPE")
+		typeB, _ := i.Form[b].GetString("FORM_TYPE")
+		return typeA < typeB
+	})
 	for _, infoForm := range i.Form {
 		var formType string
 		// The capacity is only a hint (every field but FORM_TYPE); a form without
